@@ -552,8 +552,24 @@ def _default_resolver(root, ctx, info, **args):
     return getattr(root, info.field_definition.name, None)
 
 
-def sm_to_code(sm, with_resolvers=True):
-    """Build the schema through the constructors of py_gql.schema (no SDL involved)."""
+def reorder_keys(v, how):
+    """Same value, dict keys in another insertion order (recursively, also inside lists)."""
+    if isinstance(v, dict):
+        ks = list(v)
+        if how == "reversed":
+            ks = ks[::-1]
+        elif how == "rotated":
+            ks = ks[1:] + ks[:1]
+        return {k: reorder_keys(v[k], how) for k in ks}
+    if isinstance(v, list):
+        return [reorder_keys(x, how) for x in v]
+    return v
+
+
+def sm_to_code(sm, with_resolvers=True, key_order=None):
+    """Build the schema through the constructors of py_gql.schema (no SDL involved).
+
+    key_order: None (input-object defaults keyed in field declaration order) | "reversed" | "rotated"."""
     from py_gql.schema import (
         ID,
         Argument,
@@ -590,6 +606,8 @@ def sm_to_code(sm, with_resolvers=True):
         kw = {}
         if iv["default"] is not None:
             kw["default_value"] = coerce_literal(env, iv["type"], iv["default"])
+            if key_order:
+                kw["default_value"] = reorder_keys(kw["default_value"], key_order)
         if iv.get("python_name"):
             kw["python_name"] = iv["python_name"]
         return kw
